@@ -110,11 +110,11 @@ func checkHistory(cfg config, h []opRec, stuck string, withPorcupine bool) histR
 	var recvs, closes []opRec
 	got := map[int64][]opRec{}
 	for _, o := range h {
+		if o.Bad != "" {
+			add("malformed-result/"+o.Op, "%s: %s", o.String(cfg), o.Bad)
+		}
 		switch o.Op {
 		case opRecv:
-			if o.Bad != "" {
-				add("malformed-result/recv", "%s: %s", o.String(cfg), o.Bad)
-			}
 			if o.Ret != 0 {
 				recvs = append(recvs, o)
 				if o.OK {
